@@ -83,7 +83,7 @@ fn cmd() -> BoxedStrategy<Cmd> {
             Some(l)
         }),
     ];
-    let http = || prop_oneof![12 => Just(200u16), 1 => Just(403u16), 1 => Just(500u16), 1 => Just(404u16)];
+    let http = || prop_oneof![12 => Just(200u16), 1 => Just(403u16), 1 => Just(500u16), 1 => Just(404u16), 2 => Just(503u16), 1 => proptest::sample::select(vec![400u16, 401, 408, 429, 502, 504])];
     let ipp_status = || prop_oneof![8 => Just(0u16), 1 => Just(1u16), 1 => Just(2u16), 1 => Just(0x0507u16), 1 => Just(0x0400u16), 1 => Just(0x040au16)];
     (
         (doc, any::<bool>(), proptest::option::of(arg_text()), proptest::option::of(arg_text()), proptest::collection::vec((key2, option_value()), 0..=6)),
@@ -217,10 +217,19 @@ pub fn judge(c: &Cmd, p: &Probe) -> Judge {
     let exe = std::env::var("VERIF_IPPUTIL").map_err(|_| Fail::new("infra/no-ipputil", "VERIF_IPPUTIL not set (run through ./check)"))?;
     let (gpa, pj) = (gpa_response(c), pj_response(c));
     let (gh, ph) = (c.gpa_http, c.pj_http);
+    // in half of the cases an HTTP error is given once per operation only: a request repeated after it is
+    // answered successfully (a printer that was busy for a moment) - a client that silently tries again
+    // sends a second request and may end with exit status 0 after a failed exchange
+    let error_once = (c.doc.len() + c.options.len() + c.headers.len()) % 2 == 0;
+    let seen = Arc::new([std::sync::atomic::AtomicUsize::new(0), std::sync::atomic::AtomicUsize::new(0)]);
+    if error_once && (gh != 200 || ph != 200) {
+        p.label("HTTP error given once; a repeated request would succeed");
+    }
     let handler: Handler = Arc::new(move |r: &Recorded| {
         let op = if r.body.len() >= 4 { ((r.body[2] as u16) << 8) | r.body[3] as u16 } else { 0 };
         let mut s = if op == 0x000b { Script::ok(gpa.clone()) } else { Script::ok(pj.clone()) };
-        s.status = if op == 0x000b { gh } else { ph };
+        let nth = seen[if op == 0x000b { 0 } else { 1 }].fetch_add(1, std::sync::atomic::Ordering::SeqCst);
+        s.status = if error_once && nth > 0 { 200 } else if op == 0x000b { gh } else { ph };
         s.framing = if r.body.len() % 2 == 0 { Framing::ContentLength } else { Framing::Chunked(vec![9, 30]) };
         s
     });
